@@ -89,6 +89,33 @@ def run_unit(name, do_vacuity=True, known=()):
         return name, None, None, 'internal: %s\n%s' % (e, traceback.format_exc())
 
 
+def readonly_census():
+    """where does non-test code produce Error::ReadOnlyTx?  Backs the assumed contract `InnerBucket::* never
+    answers ReadOnlyTx`: every occurrence must be a guard `return Err(Error::ReadOnlyTx)` in a function under contract."""
+    import glob
+    from rsrc import Source, line_of
+    guard_fns = set()
+    for key in ('Bucket_put', 'Bucket_delete', 'Bucket_create_bucket', 'Bucket_get_or_create_bucket', 'Bucket_delete_bucket',
+                'Tx_create_bucket', 'Tx_get_or_create_bucket', 'Tx_delete_bucket', 'Tx_commit'):
+        c = gen.Contract(key)
+        S = gen.source(c.src_file)
+        loc = S.find_fn(c.fn_spec)
+        guard_fns.add((c.src_file, loc['body_open'], loc['body_close']))
+    found, unexpected = [], []
+    for f in sorted(glob.glob(os.path.join(gen.REPO, 'src', '*.rs'))):
+        rel = os.path.relpath(f, gen.REPO)
+        S = gen.source(rel)
+        for m in re.finditer(r'ReadOnlyTx', S.masked):
+            if S.in_test(m.start()) or rel == 'src/errors.rs':
+                continue
+            ln = line_of(S.text, m.start())
+            inside = any(rel == g[0] and g[1] <= m.start() <= g[2] for g in guard_fns)
+            found.append('%s:%d' % (rel, ln))
+            if not inside:
+                unexpected.append('%s:%d' % (rel, ln))
+    return dict(occurrences=found, unexpected=unexpected)
+
+
 def main():
     ap = argparse.ArgumentParser()
     ap.add_argument('prop')
@@ -220,6 +247,12 @@ def main():
         json.dump(baseline, open(BASELINE, 'w'), indent=1, sort_keys=True)
         print('baseline rewritten for units %s' % P['units'])
 
+    census = None
+    if P.get('census') == 'ReadOnlyTx':
+        census = readonly_census()
+        if census['unexpected']:
+            undecided.append('census: Error::ReadOnlyTx is produced outside the nine guards: %s' % census['unexpected'])
+
     # verdict
     wall = time.time() - t0
     out_lines = []
@@ -279,6 +312,7 @@ def main():
             vacuity_probes=vac_info,
             composition=P.get('composition', 'paper (DESIGN section 5/6); unit obligations machine-checked'),
             not_covered=P.get('not_covered', []),
+            census=census,
             known_findings=[dict(obligation=fl.ident(), what=kf['what']) for fl, kf in known],
             known_finding_obligations_excluded_from_counts=len(known),
             findings_of_other_properties_in_shared_units=out_of_scope,
